@@ -3,10 +3,13 @@ package props
 import (
 	"bytes"
 	"crypto/rand"
+	"crypto/rsa"
 	"crypto/tls"
 	"encoding/xml"
 	"fmt"
+	"math/big"
 	"strings"
+	"sync"
 
 	saml2 "github.com/russellhaering/gosaml2"
 	"github.com/russellhaering/gosaml2/types"
@@ -79,6 +82,24 @@ func c11KeyConfigs() []c11key {
 			sp.SetSPKeyStore(&saml2.KeyStore{Signer: w.SPEnc.Key.Signer, Cert: w.SPEnc.DER})
 			sp.ValidateEncryptionCert = true
 			return w.SPEnc
+		}},
+		{"field-key-without-primes", func(w *World, sp *saml2.SAMLServiceProvider) *sim.Cert {
+			// a key imported from a format that carries only modulus and exponents (JWK without factors, an HSM handle):
+			// crypto/rsa decrypts with it all the same
+			k := w.SPEnc.Key.RSA()
+			sp.SPKeyStore = &RSAKeyStore{C: w.SPEnc, Raw: &rsa.PrivateKey{PublicKey: rsa.PublicKey{N: new(big.Int).Set(k.N), E: k.E}, D: new(big.Int).Set(k.D)}}
+			return w.SPEnc
+		}},
+		{"setter-odd-modulus-2047", func(w *World, sp *saml2.SAMLServiceProvider) *sim.Cert {
+			// a modulus whose bit length is not a multiple of eight
+			c := oddModulusCert(w)
+			sp.SetSPKeyStore(&saml2.KeyStore{Signer: c.Key.Signer, Cert: c.DER})
+			return c
+		}},
+		{"field-odd-modulus-2047", func(w *World, sp *saml2.SAMLServiceProvider) *sim.Cert {
+			c := oddModulusCert(w)
+			sp.SPKeyStore = &RSAKeyStore{C: c}
+			return c
 		}},
 		{"setter+signing-field", func(w *World, sp *saml2.SAMLServiceProvider) *sim.Cert {
 			sp.SetSPKeyStore(&saml2.KeyStore{Signer: w.SPEnc.Key.Signer, Cert: w.SPEnc.DER})
@@ -382,4 +403,26 @@ func runC11(c *mon.Ctx) {
 			c.Count("keycfg."+kc.name, 1)
 		}
 	}
+}
+
+var (
+	oddOnce sync.Once
+	oddKey  *sim.Key
+)
+
+// oddModulusCert returns a certificate over an RSA key with a 2047-bit modulus (generated once per process).
+func oddModulusCert(w *World) *sim.Cert {
+	oddOnce.Do(func() {
+		for {
+			k, err := rsa.GenerateKey(rand.Reader, 2047)
+			if err != nil {
+				panic(err)
+			}
+			if k.N.BitLen() == 2047 {
+				oddKey = &sim.Key{Name: "rsa2047", Signer: k}
+				return
+			}
+		}
+	})
+	return sim.Wide(oddKey, w.Now)
 }
